@@ -16,7 +16,7 @@ RULE = ("same envelope generator as C01 (22 entry states x authorized subsets x 
         "produced by the library's own signing functions for 1-4 signers; the shipped fixtures; a fresh-process run with no "
         "other module imported.  non-trivial = oracle says the threshold is met by >= 1 signer; distinct by (envelope, threshold, mode, encoding)")
 
-THEOREMS = ["verifySignable_complete", "junk_irrelevant", "own_signatures_verify", "verifySignable_iff"]
+THEOREMS = ["verifySignable_complete", "junk_never_hurts", "junk_never_helps", "verifySignable_iff"]
 
 
 def run(ck: Check) -> None:
